@@ -988,8 +988,8 @@ def turn_facts(ctx: Ctx) -> TurnFacts:
     )
 
 
-def turn_env(tf: TurnFacts, *, tell: object = 10, predicted: object = 0, uploaded: object = 0, owned: object = False, codec: object = None, finished: object = TOP) -> dict[str, object]:
-    env = cap_env(tf.fi)
+def turn_env(tf: TurnFacts, *, tell: object = 10, predicted: object = 0, uploaded: object = 0, owned: object = False, codec: object = None, finished: object = TOP, wire: object = WCAP, ext: object = ECAP) -> dict[str, object]:
+    env = cap_env(tf.fi, wire=wire, ext=ext)
     for t in tf.tells:
         env[txt(t)] = tell
     for p in tf.predicts:
@@ -1009,20 +1009,27 @@ def turn_env(tf: TurnFacts, *, tell: object = 10, predicted: object = 0, uploade
 def check_turn_stops_over_wire_cap(ctx: Ctx, tf: TurnFacts, rule_prefix: str = "producer") -> None:
     """With the measured body already over the wire cap after a flush, the turn must not call process() again."""
     ex = Explorer(ctx, tf.fi, fresh=ctorlike)
-    o = ex.run(turn_env(tf, tell=WCAP + 1))
-    starts = [(n, en) for n in tf.cfg.done(tf.flush_stmt) for en in o.envs_at.get(n, [])]
-    if not starts:
-        raise AnalysisError("producer turn: flush statement not reached under the test environment")
-    o2 = ex.run(starts=starts)
-    ctx.check(not o2.reaches(tf.process), "RF-BOUND", f"{rule_prefix}:stops-over-wire-cap", tf.fi, tf.process,
-              ok="once the measured body exceeds max_response_bytes no further batch is produced in this turn (overshoot <= the last batch)",
-              bad="with the body already over max_response_bytes the loop calls process() again: the turn exceeds the cap by more than its last batch")
-    o3 = ex.run(turn_env(tf, tell=WCAP + 1, finished=False))
-    s3 = [(n, en) for n in tf.cfg.done(tf.flush_stmt) for en in o3.envs_at.get(n, [])]
-    o4 = ex.run(starts=s3, avoid={i for c in tf.sentinel_writes + tf.err_writes for i in tf.cfg.done(c)})
-    ctx.check(not o4.reaches(tf.ret), "RF-DOM", f"{rule_prefix}:capped-turn-ends-with-continuation", tf.fi, tf.ret,
+    again: list[str] = []
+    silent: list[str] = []
+    # the wire cap must hold whatever the *other* cap is: external cap set / unset
+    for ext, label in ((ECAP, "external cap set"), (None, "external cap unset")):
+        o = ex.run(turn_env(tf, tell=WCAP + 1, ext=ext))
+        starts = [(n, en) for n in tf.cfg.done(tf.flush_stmt) for en in o.envs_at.get(n, [])]
+        if not starts:
+            raise AnalysisError("producer turn: flush statement not reached under the test environment")
+        if ex.run(starts=starts).reaches(tf.process):
+            again.append(label)
+        o3 = ex.run(turn_env(tf, tell=WCAP + 1, finished=False, ext=ext))
+        s3 = [(n, en) for n in tf.cfg.done(tf.flush_stmt) for en in o3.envs_at.get(n, [])]
+        o4 = ex.run(starts=s3, avoid={i for c in tf.sentinel_writes + tf.err_writes for i in tf.cfg.done(c)})
+        if o4.reaches(tf.ret):
+            silent.append(label)
+    ctx.check(not again, "RF-BOUND", f"{rule_prefix}:stops-over-wire-cap", tf.fi, tf.process,
+              ok="once the measured body exceeds max_response_bytes no further batch is produced in this turn (overshoot <= the last batch), with or without an external cap",
+              bad=f"with the body already over max_response_bytes the loop calls process() again ({', '.join(again)}): the turn exceeds the cap by more than its last batch")
+    ctx.check(not silent, "RF-DOM", f"{rule_prefix}:capped-turn-ends-with-continuation", tf.fi, tf.ret,
               ok="a turn cut short by the cap always appends the continuation sentinel (or an error batch)",
-              bad="a turn cut short by the wire cap can return without a continuation sentinel: the client takes the truncated turn for the end of the stream")
+              bad=f"a turn cut short by the wire cap can return without a continuation sentinel ({', '.join(silent)}): the client takes the truncated turn for the end of the stream")
 
 
 def check_turn_measure(ctx: Ctx, tf: TurnFacts, rule_prefix: str = "producer") -> None:
